@@ -2,8 +2,10 @@ package c17
 
 import (
 	"context"
+	"encoding/json"
 	"fmt"
 	"runtime"
+	"strings"
 	"sync"
 	"sync/atomic"
 	"testing"
@@ -44,10 +46,16 @@ type Case5 struct {
 }
 
 func genCase5(t *rapid.T) Case5 {
-	c := Case5{Mode: rapid.SampledFrom([]int{0, 0, 0, 1}).Draw(t, "mode"), Procs: rapid.SampledFrom([]int{4, 6, 8}).Draw(t, "procs")}
+	c := Case5{Procs: rapid.SampledFrom([]int{4, 6, 8}).Draw(t, "procs")}
 	c.Reps = 150
 	if harness.Thorough() {
 		c.Reps = 400
+		// Chrome groups need the base group's staggered second batch, i.e. one second of real time per
+		// call: thorough tier only, a handful of calls per case
+		c.Mode = rapid.SampledFrom([]int{0, 0, 0, 0, 0, 0, 0, 0, 0, 1}).Draw(t, "mode")
+		if c.Mode == 1 {
+			c.Reps = 8
+		}
 	}
 	if c.Mode == 0 {
 		c.NLogs = rapid.IntRange(2, 5).Draw(t, "nlogs")
@@ -134,7 +142,15 @@ func hammerGroups(c Case5) (ctpolicy.LogPolicyData, error) {
 	return groups, nil
 }
 
-func check5(t *testing.T, c Case5) harness.Verdict {
+// hammerObs is what one execution of a case found.
+type hammerObs struct {
+	Violations []harness.Violation
+	Classes    []string
+	NonTrivial bool
+}
+
+// exec5 runs the case in this process and judges it.
+func exec5(c Case5) hammerObs {
 	var v harness.Verdict
 	defer runtime.GOMAXPROCS(runtime.GOMAXPROCS(c.Procs))
 	v.Class(fmt.Sprintf("mode:%d", c.Mode), fmt.Sprintf("procs:%d", c.Procs))
@@ -245,10 +261,55 @@ func check5(t *testing.T, c Case5) harness.Verdict {
 		v.Class("outcome:failure")
 	}
 	v.Class(fmt.Sprintf("contended-logs:%d", contended))
-	v.NonTrivial = contended > 0
+	return hammerObs{Violations: v.Violations, Classes: v.Classes, NonTrivial: contended > 0}
+}
+
+
+// check5 executes the case in a child process: the defect this sub-property aims at may kill the process
+// (two "first requesters" of one log close the same completion channel), and a child turns that into a
+// verdict with a signature that can be shrunk and replayed.
+func check5(t *testing.T, c Case5) harness.Verdict {
+	var v harness.Verdict
+	res, err := runChild(t, "hammer", c, nil)
+	if err != nil {
+		v.Failf("harness-child", "%v", err)
+		return v
+	}
+	if strings.Contains(res.Fatal, "close of closed channel") && strings.Contains(res.Fatal, "safeSubmissionState).setResult") {
+		res2 := res
+		res2.Fatal = ""
+		judgeRaces(&v, res2)
+		v.Failf("double-first-requester", "the process died because two requests to one log were both registered as the first one (each closes the log's completion channel): %s", res.Fatal)
+		v.NonTrivial = true
+		return v
+	}
+	judgeRaces(&v, res)
+	if res.Obs == nil {
+		v.NonTrivial = true
+		return v
+	}
+	var o hammerObs
+	if err := json.Unmarshal(res.Obs, &o); err != nil {
+		v.Failf("harness-child", "cannot decode the child's observation: %v", err)
+		return v
+	}
+	v.Violations = append(v.Violations, o.Violations...)
+	v.Classes = o.Classes
+	v.NonTrivial = o.NonTrivial
 	return v
 }
 
-var Hammer = harness.Define(harness.Opts{Name: "hammer", Rule: ruleHammer, Quick: 120, Thorough: 600, Crashy: true}, genCase5, check5)
+func init() {
+	childRunners["hammer"] = func(t *testing.T, raw, _ json.RawMessage, emit func(any)) error {
+		var c Case5
+		if err := json.Unmarshal(raw, &c); err != nil {
+			return err
+		}
+		emit(exec5(c))
+		return nil
+	}
+}
 
-const ruleHammer = "submission.GetSCTs outside any bubble on 4-8 Ps with a submitter that answers at once: 2-5 hand-made groups that all contain the same 2-5 logs and ask every member in their first batch (or Chrome groups with one preference order), 150 calls per case (400 in thorough) in 4 lanes; only the safety clauses are judged (at most one submission per log, distinct logs, every group satisfied on success). Non-trivial: at least one log is in the first batch of two groups"
+var Hammer = harness.Define(harness.Opts{Name: "hammer", Rule: ruleHammer, Quick: 60, Thorough: 400, Crashy: true}, genCase5, check5)
+
+const ruleHammer = "submission.GetSCTs outside any bubble on 4-8 Ps (each case in a child process) with a submitter that answers at once: 2-5 hand-made groups that all contain the same 2-5 logs and ask every member in their first batch (or Chrome groups with one preference order), 150 calls per case in 4 lanes (thorough: 400, and in a tenth of the cases Chrome groups with 8 calls); only the safety clauses are judged (at most one submission per log, distinct logs, every group satisfied on success). Non-trivial: at least one log is in the first batch of two groups"
